@@ -38,6 +38,7 @@ def run(ctx):
         g.exhaustive(ctx, "MC_c06_t2.cfg", "C06 safety (T=2)", timeout=1500)
         g.exhaustive(ctx, "MC_c06_thorough.cfg", "C06 safety (3 nodes)", timeout=2400)
         g.exhaustive(ctx, "MC_c06_live_thorough.cfg", "C06 liveness (3 nodes)", timeout=2400)
+        g.require_action_coverage(ctx, ["ATick", "ACas", "AGossip", "ADeliver", "AGarbage", "APushPull", "AArm", "ARelease", "ARestart", "APartition", "AHeal"])
     ctx.exhaustive = False
     if quick:
         g.generate_and_replay(ctx, "C06", "Sim_c06.cfg", num_per_worker=40, run_depth=25)
@@ -45,4 +46,5 @@ def run(ctx):
     else:
         g.generate_and_replay(ctx, "C06", "Sim_c06.cfg", num_per_worker=600, run_depth=30, timeout=1500)
         g.generate_and_replay(ctx, "C06", "Sim_c06_n2.cfg", num_per_worker=300, run_depth=30, timeout=1500)
+    g.record_and_validate(ctx, ntraces=8 if quick else 150, steps=60 if quick else 80, timeout=600 if quick else 1500)
     return "model_checking"
